@@ -210,6 +210,7 @@ End MultiObjective.
 
 (* ---------------- binary (integers) ---------------- *)
 Local Open Scope Z_scope.
+Definition is_bit (v : Z) : Prop := v = 0 \/ v = 1.
 Definition ones (b : list Z) : Z := fold_right Z.add 0 b.
 (* trap: k if all ones, else k - 1 - u;   inverse trap: k if all zeros, else u - 1 *)
 Definition spec_bin_trap (b : list Z) : Z :=
